@@ -10,6 +10,8 @@ CONSTANTS
   MacroCloses = {}
   SnipDeeps = {}
   FileChains = {}
+  SnipSplits = {}
+  FileSplits = {}
   Devs = {"SelfImportDoubling", "ImportLadder", "EmptyMacroEmbed", "MacroCloseNesting", "DeepImportTree"}
 INVARIANTS ModelHolds
 CHECK_DEADLOCK FALSE
